@@ -48,6 +48,9 @@ CHECKS = {
  "C14": ("model_checking", "exhaustive enumeration of plugin orders x a trigger script firing all 19 hook kinds, and of the verdict table x versions x deciding-plugin position, on the real in-process broker with recording plugins",
   "All 15 non-empty permutations of subsets of three recording plugins as plugin_order: per hook kind the call log must be enter(order) base exit(reverse), every exposed wrapper installed, Load/Unload once in order. Every verdict of the table (basic/enhanced auth, OnSubscribe, OnUnsubscribe, OnMsgArrived, OnWillPublish) x v3.1.1/v5 x deciding plugin alone/inner/outer: wire acks, ClientService/SubscriptionService/RetainedService contents and what an independent '#' subscriber receives must equal the verdict. Multi-round enhanced authentication is driven in-package through the real connect state machine.",
   "Default schedule. The multi-round AUTH exchange cannot be completed over the wire on the unchanged broker (known finding), so its verdicts are checked through an in-package accessor (VerifRunConnect). Trusted: vsched, refmqtt, the recording plugins.", "DESIGN.md 8/C14"),
+ "C20": ("model_checking", "exhaustive scenario-tree enumeration on the real in-process broker; every statistics counter compared with the harness's own packet log and session/queue model at every quiescent point",
+  "Every sequence of an 18-event alphabet (connects v5 persistent / clean / take-over, v3 clean, subscribe, unsubscribe, publish QoS0/1/2, ack, duplicate PUBACK, PINGREQ, DISCONNECT, abrupt close, clock advance, TerminateSession) up to depth 4 (quick) / 5 (thorough), plus breadth-first continuation from two directed states (subscriber offline with backlog; subscriber online with an in-flight message), for two broker configurations; after every event every uint64 leaf of GetGlobalStats()/GetClientStats() except the drop and subscription counters is compared with ground truth (wire lengths, per-QoS PUBLISH counts, session and queue model).",
+  "Per-client statistics restart when the session is terminated (the broker deletes them). Drop counters are exercised by C10/C12/C13 through the drop hook; AUTH packet counters are not exercised. Default schedule. Trusted: refmqtt, vsched.", "DESIGN.md 8/C20"),
 }
 NA_DEFAULT = "check not built yet in this session (planned design in DESIGN.md section 8)"
 
